@@ -28,6 +28,7 @@ var crashShapes = [][]string{
 	{"lint", "log.yaml"}, {"lint", "-s", "log.yaml"}, {"lint", "food.yaml"},
 	{"--maxdepth", "1", "--no-color", "reg"}, {"--maxdepth", "2", "csv", "database-resolved"}, {"--no-database", "report", "totals"},
 	{"--date-format", "2006-01-02", "print"},
+	{"--maxdepth", "0", "--no-color", "reg"}, {"--maxdepth", "-1", "csv", "database-resolved"}, {"--maxdepth", "0", "report", "element-total", "calories"},
 }
 
 const fixedBook = "food1:\n  calories: 10\n  fat: 1\na:\n  food1: 2\n  b: 1\nb:\n  calories: 1\n"
